@@ -19,5 +19,10 @@ for li, sz in enumerate(sizes):
         for (a, b) in ((0, 1), (1, 2), (2, 2), (4, 0)):
             recs += struct.pack("<II", a, b) + bytes((7 * a + b + i) & 255 for i in range(sz))
         w("rawbin", "seed%02d" % k, bytes([directed | (li << 1)]) + recs); k += 1
+# a file whose last record names vertex 0xFFFFFFFF (index+1 wraps to 0)
+for li, sz in enumerate(sizes):
+    recs = struct.pack("<II", 0, 1) + bytes(sz) + struct.pack("<II", 1, 2) + bytes(sz) + struct.pack("<II", 0xFFFFFFFF, 0) + bytes(sz)
+    w("rawbin", "seed%02d" % k, bytes([(li & 1) | (li << 1)]) + recs); k += 1
+open(os.path.join(root, "rawbin.dict"), "w").write('"\\xff\\xff\\xff\\xff"\n"\\x00\\x00\\x00\\x00"\n"\\x01\\x00\\x00\\x00"\n"\\xff\\xff\\x00\\x00"\n"\\x00\\x01\\x00\\x00"\n')
 open(os.path.join(root, "rawtext.dict"), "w").write('"#"\n"\\x09"\n" "\n"\\x0a"\n"-1"\n"0"\n"1"\n"10"\n"65536"\n"2147483648"\n"+"\n"-"\n"\\x0d"\n')
 print("ok")
